@@ -4,6 +4,8 @@ import SJ.Props.C09Stream
 import SJ.Props.StreamTyped
 import SJ.Props.C09LineCol
 import SJ.Props.C09RawNested
+import SJ.Props.C09Readers
+import SJ.Props.C09ReadersRaw
 #print axioms SJ.Props.C09.c09_slice_reader
 #print axioms SJ.Props.C09.c09_str_slice_ignored
 #print axioms SJ.Props.C09.c09_str_slice_value
@@ -33,3 +35,17 @@ import SJ.Props.C09RawNested
 #print axioms SJ.Props.C09.c09_raw_one_slice_reader
 #print axioms SJ.Props.C09.c09_raw_nested_class
 #print axioms SJ.Props.C09.c09_raw_nested_str_slice
+#print axioms SJ.Props.C09.c09_machine_string_steps
+#print axioms SJ.Props.C09.c09_slice_str_refines
+#print axioms SJ.Props.C09.c09_strread_str_refines
+#print axioms SJ.Props.C09.c09_io_str_refines
+#print axioms SJ.Props.C09.c09_io_str_state
+#print axioms SJ.Props.C09.c09_slice_ignore_refines
+#print axioms SJ.Props.C09.c09_io_ignore_refines
+#print axioms SJ.Props.C09.c09_str_readers_agree
+#print axioms SJ.Props.C09.c09_str_readers_positions
+#print axioms SJ.Props.C09.c09_strread_slice
+#print axioms SJ.Props.C09.c09_hex_escape_cut
+#print axioms SJ.Props.C09.c09_slice_raw_refines
+#print axioms SJ.Props.C09.c09_io_raw_refines
+#print axioms SJ.Props.C09.c09_raw_readers_agree
